@@ -473,6 +473,18 @@ func TestC13(t *testing.T) {
 				rep.Eval(1)
 				c := map[string]interface{}{"target": tg.name, "mistake": m.class, "detail": m.desc, "already_mocked": pre}
 				rep.Class(fmt.Sprintf("%s/%s/premocked=%v", tg.name, m.class, pre))
+				if perr != nil && !viaWhen(m.desc) && m.class != "in-alternative-too-few-arguments" {
+					// the same mistake once more through the same builder: refused again
+					var perr2 interface{}
+					func() {
+						defer func() { perr2 = recover() }()
+						m.do(b0)
+					}()
+					rep.Eval(1)
+					if perr2 == nil {
+						rep.Violate("C13/mistake-accepted-on-second-attempt", fmt.Sprintf("%s: %s (%s) was refused the first time (%v) and accepted when repeated through the same builder", tg.name, m.class, m.desc, firstLine13(perr)), c)
+					}
+				}
 				if perr == nil {
 					key := "C13/mistake-accepted"
 					if strings.HasPrefix(m.desc, "Return() with 0") {
@@ -484,7 +496,7 @@ func TestC13(t *testing.T) {
 				}
 				// the mistake follows a well-formed When(...) in the same chain; that call is a configuration of its
 				// own which installs the stub, so only the rejection itself is asserted
-				if strings.HasPrefix(m.desc, "When(..).Return()") || strings.HasPrefix(m.desc, "Return(good).AndReturn()") {
+				if viaWhen(m.desc) {
 					b0.Reset()
 					if tg.isIface {
 						iv = nil
@@ -540,6 +552,12 @@ func TestC13(t *testing.T) {
 		}},
 		{"unknown-method", "Interface(&held).Method(Extra2).Apply [same signature as Get]", func(b *mocker.Builder) {
 			b.Interface(&ivHeld).Method("Extra2").Apply(func(ctx *mocker.IContext, a int, s string) int { return 0 })
+		}},
+		{"unknown-method", "Interface(&iv).Method(Nope).Apply [callback fits the first method]", func(b *mocker.Builder) {
+			b.Interface(&iv).Method("Nope").Apply(func(ctx *mocker.IContext, a int, s string) int { return 0 })
+		}},
+		{"unknown-method", "Interface(&iv).Method(Nope).As.Return", func(b *mocker.Builder) {
+			b.Interface(&iv).Method("Nope").As(func(ctx *mocker.IContext, a int, s string) int { return 0 }).Return(1)
 		}},
 		{"unknown-symbol", "ExportFunc(nope).Apply", func(b *mocker.Builder) { b.ExportFunc("nope").Apply(func() {}) }},
 		{"unknown-symbol", "ExportFunc(nope).As", func(b *mocker.Builder) { b.ExportFunc("nope").As(func() {}).Return() }},
@@ -621,6 +639,18 @@ func TestC13(t *testing.T) {
 		rep.Eval(1)
 		rep.Class("misc/" + m.class + "/" + m.desc)
 		c := map[string]interface{}{"mistake": m.class, "detail": m.desc}
+		if perr != nil {
+			// the same mistake once more through the same builder: refused again
+			var perr2 interface{}
+			func() {
+				defer func() { perr2 = recover() }()
+				m.do(b)
+			}()
+			rep.Eval(1)
+			if perr2 == nil {
+				rep.Violate("C13/mistake-accepted-on-second-attempt", fmt.Sprintf("%s (%s) was refused the first time (%v) and accepted when repeated through the same builder", m.class, m.desc, firstLine13(perr)), c)
+			}
+		}
 		if perr == nil {
 			rep.Violate("C13/mistake-accepted", fmt.Sprintf("%s (%s) was not rejected", m.class, m.desc), c)
 		} else if why := chainProblem(perr); why != "" {
@@ -650,4 +680,16 @@ func TestC13(t *testing.T) {
 	}
 	rep.Sample(map[string]interface{}{"target": "F3", "mistake": "callback-signature", "detail": "param 1 size 8->1"})
 	rep.Sample(map[string]interface{}{"target": "I.Get", "mistake": "callback without context parameter"})
+}
+
+func viaWhen(desc string) bool {
+	return strings.HasPrefix(desc, "When(..).Return()") || strings.HasPrefix(desc, "Return(good).AndReturn()")
+}
+
+func firstLine13(v interface{}) string {
+	s := fmt.Sprint(v)
+	if i := strings.IndexByte(s, '\n'); i >= 0 {
+		s = s[:i]
+	}
+	return s
 }
